@@ -182,7 +182,8 @@ class Ctx:
             "inconclusive": self.inconclusive,
             "inconclusive_notes": self.inconclusive_notes,
             "known_findings_seen": sorted(self.known_seen),
-            "distinct_violation_keys": sorted(seen_keys)[:50],
+            "distinct_violation_keys": sorted(seen_keys)[:2000],
+            "violation_details": {k: w[:400] for k, w, _ in self.violations[:2000]},
         }
         cov.update(self.extra)
         ev = {
